@@ -25,7 +25,8 @@ def extreme_archives(rng, sc):
         out.append(p)
     ok = RG.G("file", b"ok.txt", data=b"fine\n" * 4, level=1).raw()
     # level 3: header length field 2^32-1, 1 MiB + 1, 1 MiB exactly (with little data behind it)
-    for tag, hl in (("l3_max", 0xFFFFFFFF), ("l3_1m1", 1024 * 1024 + 1), ("l3_1m", 1024 * 1024), ("l3_small", 31), ("l3_100k", 100000)):
+    for tag, hl in (("l3_max", 0xFFFFFFFF), ("l3_1m1", 1024 * 1024 + 1), ("l3_1m", 1024 * 1024), ("l3_small", 31), ("l3_100k", 100000),
+                    ("l3_9m", 9 * 1024 * 1024), ("l3_64m", 64 * 1024 * 1024), ("l3_1g", 1024 * 1024 * 1024)):
         h = bytearray(arc.header(3, b"-lh0-", 5, 5, exts=[arc.x_name(b"a")]))
         struct.pack_into("<I", h, 24, hl)
         put(tag, ok + bytes(h) + b"hello" + b"\0")
